@@ -362,6 +362,8 @@ def lean_bytes(bs):
 # the group instantiations) has no meaning in the Rust. The table is therefore emitted in ONE canonical order — the order at
 # the pinned commit — so that moving definitions around does not renumber states; a state unknown here (new or renamed)
 # is appended after the known ones in discovery order.
+NOTES = []  # soft notes of the last translate() call
+
 CANONICAL_STATE_ORDER = [
     "cdata_section_state",
     "cdata_section_bracket_state",
@@ -432,6 +434,7 @@ CANONICAL_STATE_ORDER = [
 
 
 def translate(repo):
+    del NOTES[:]
     groups = find_groups(repo)
     inst, dyn = instantiated_groups(repo)
     for g in groups:
@@ -452,15 +455,26 @@ def translate(repo):
             origin[st["name"]] = rel
             states.append(st)
     rank = {n: i for i, n in enumerate(CANONICAL_STATE_ORDER)}
+    aliases = {}
     present = {st["name"] for st in states}
     missing = [n for n in CANONICAL_STATE_ORDER if n not in present]
     unknown = [st["name"] for st in states if st["name"] not in rank]
     if len(missing) == 1 and len(unknown) == 1:
-        # one state renamed: it keeps the slot of the name that disappeared (the numbering stays; name-based
-        # obligations such as the comparison with the WHATWG reference table will still ask for the new name)
+        # one state renamed: it keeps the slot AND the canonical name of the state that disappeared. The Rust name of a
+        # state function carries no behaviour; whether the renamed state really is the old one is decided by the
+        # obligations that compare its resolved arms (reference table, labellings), which fail if it is not.
         rank[unknown[0]] = rank[missing[0]]
+        NOTES.append(f"state `{unknown[0]}` takes the place of `{missing[0]}` (renamed); emitted under the canonical name")
+        renamed = {unknown[0]: missing[0]}
+        aliases.update(renamed)
+        for st in states:
+            if st["name"] in renamed:
+                origin[renamed[st["name"]]] = origin[st["name"]]
+                st["name"] = renamed[st["name"]]
     states = [st for _, st in sorted(enumerate(states), key=lambda p: (rank.get(p[1]["name"], len(rank)), p[0]))]
     index = {st["name"]: i for i, st in enumerate(states)}
+    for new, old in aliases.items():
+        index[new] = index[old]
 
     def sid(name):
         if name not in index:
